@@ -2,7 +2,7 @@
 From Coq Require Import ZArith List Lia Bool.
 From NSL Require Import Spec.Leb128 Model.WasmPack.
 Import ListNotations.
-Open Scope Z_scope.
+Local Open Scope Z_scope.
 
 Lemma land127 v : Z.land v 127 = v mod 128.
 Proof. change 127 with (Z.ones 7). rewrite Z.land_ones by lia. reflexivity. Qed.
